@@ -195,4 +195,501 @@ Proof.
   unfold clear_buffers. destruct (TransformState.get_obj P G C s o) as [ob|]; auto.
   destruct (o_kind P G C ob); auto using tlen_clear1. destruct (c_seq_clear cf); auto using tlen_fold_clear.
 Qed.
+
+(* ---------- postcondition combinators ---------- *)
+Definition post {A} (s : state) (m : res P G C A) : Prop := wf (st_of m) /\ tlen s <= tlen (st_of m).
+
+Lemma post_ret {A} s (a : A) s' : wf s' -> tlen s <= tlen s' -> post s (Ok a s').
+Proof. split; auto. Qed.
+Lemma post_err {A} s e s' : wf s' -> tlen s <= tlen s' -> @post A s (Er e s').
+Proof. split; auto. Qed.
+Lemma post_bind {A B} s (m : res P G C A) (f : A -> state -> res P G C B) :
+  post s m -> (forall a s1, m = Ok a s1 -> wf s1 -> tlen s <= tlen s1 -> post s1 (f a s1)) -> post s (bind P G C m f).
+Proof.
+  intros [Hw Hl] Hf. destruct m as [a s1|e s1]; cbn in *.
+  - destruct (Hf a s1 eq_refl Hw Hl) as [H1 H2]. split; auto. lia.
+  - split; auto.
+Qed.
+Lemma post_with_obj {A} s o (f : obj -> res P G C A) :
+  wf s -> (forall ob, get_obj s o = Some ob -> post s (f ob)) -> post s (with_obj P G C s o f).
+Proof.
+  intros Hw Hf. unfold with_obj. destruct (TransformState.get_obj P G C s o) eqn:E; auto. apply post_err; auto.
+Qed.
+Lemma post_weaken {A} s s0 (m : res P G C A) : post s m -> tlen s0 <= tlen s -> post s0 m.
+Proof. intros [H1 H2] L. split; auto. lia. Qed.
+
+(* ---------- update ---------- *)
+Lemma mk_view_ok s k r g sg n : r < n -> u_ok n (Some (mk_view P G C p0 fits s k r g sg)).
+Proof. intro L. unfold mk_view. destruct (fits _ _ _); [apply u_ok_alias | apply u_ok_snap]; auto. Qed.
+
+Lemma update1_post s o : wf s -> post s (update1 P G C p0 callP fits spline_ok cf s o).
+Proof.
+  intro Hw. unfold update1. apply post_with_obj; auto. intros ob Hg.
+  pose proof (wf_get _ _ _ Hw Hg) as Hob.
+  (* stage 1: refresh p *)
+  set (m1 := match o_p P G C ob with Some _ => _ | None => _ end).
+  assert (H1 : post s m1 /\ forall ob1 s1, m1 = Ok ob1 s1 -> obj_ok (tlen s1) ob1).
+  { subst m1. destruct (o_p P G C ob) eqn:Ep; [destruct (c_update_p cf)|].
+    - destruct (fresh_data_ok s ob Hw Hob) as (Hw1 & Hl1 & Hr1).
+      destruct (fresh_data P G C callP fits s ob) as [r s1|e s1]; cbn in *.
+      + assert (Hob1 : obj_ok (tlen s1) (set_p P G C ob (Some r))).
+        { apply ok_set_p; [eapply obj_ok_mono; eauto|]. intros r' E; injection E as <-; auto. }
+        split; [split; cbn; auto; apply wf_set_obj; auto|].
+        intros ob1 s1' E. injection E as <- <-. exact Hob1.
+      + split; [split; auto|]. intros; discriminate.
+    - split; [split; auto|]. intros ob1 s1 E. injection E as <- <-. auto.
+    - split; [split; auto|]. intros ob1 s1 E. injection E as <- <-. auto. }
+  destruct H1 as [Hp1 Hok1]. apply post_bind; auto.
+  intros ob1 s1 E Hw1 Hl1. specialize (Hok1 _ _ E).
+  assert (Hd : post s1 (data_ref P G C s1 ob1)).
+  { unfold post. rewrite data_ref_st. split; [assumption | lia]. }
+  destruct (o_kind P G C ob1); try (apply post_ret; [assumption | lia]).
+  all: apply post_bind; [exact Hd|].
+  all: intros r s2 Ed Hw2 Hl2; destruct (data_ref_ok _ _ _ _ Hw1 Hok1 Ed) as [-> Lr].
+  all: repeat match goal with |- context [if ?c then _ else _] => destruct c end;
+    try (apply post_err; [assumption | lia]); apply post_ret; try lia; try assumption;
+    apply wf_set_obj; auto; apply ok_set_uv; auto using ok_u, ok_v, u_ok_snap, mk_view_ok.
+Qed.
+
+Notation update1 := (update1 P G C p0 callP fits spline_ok cf).
+Notation tensor1 := (tensor1 P G C p0 callP fits spline_ok cf).
+
+Lemma post_refl {A} s (a : A) : wf s -> post s (Ok a s).
+Proof. intro H. split; cbn; auto. Qed.
+Lemma post_err_refl {A} s e : wf s -> @post A s (Er e s).
+Proof. intro H. split; cbn; auto. Qed.
+Hint Resolve post_refl post_err_refl : wfdb.
+
+Lemma update_all_post l : forall s, wf s -> post s (update_all P G C p0 callP fits spline_ok cf s l).
+Proof.
+  induction l as [|o l IH]; intros s Hw; cbn; auto with wfdb.
+  apply post_bind; [apply update1_post; auto|]. intros [] s1 _ Hw1 _. auto.
+Qed.
+Lemma update_post s o : wf s -> post s (update P G C p0 callP fits spline_ok cf s o).
+Proof.
+  intro Hw. unfold update. apply post_with_obj; auto. intros ob _.
+  destruct (o_kind P G C ob); try (apply update1_post; auto).
+  destruct (c_seq_update cf); auto with wfdb. apply update_all_post; auto.
+Qed.
+
+Lemma tensor1_post s o : wf s -> post s (tensor1 s o).
+Proof.
+  intro Hw. unfold TransformState.tensor1. apply post_with_obj; auto. intros ob Hg.
+  destruct (o_kind P G C ob); auto with wfdb.
+  1-4: destruct (o_u P G C ob); auto with wfdb; destruct (c_tensor_updates cf); auto with wfdb;
+    (apply post_bind; [apply update1_post; auto|]); intros [] s1 _ Hw1 _;
+    (apply post_with_obj; auto); intros ob1 _; destruct (o_u P G C ob1); auto with wfdb.
+  apply post_bind; [unfold post; rewrite data_ref_st; split; auto|].
+  intros r s1 Ed _ _. destruct (data_ref_ok _ _ _ _ Hw (wf_get _ _ _ Hw Hg) Ed) as [-> _]. auto with wfdb.
+Qed.
+Lemma tensor_all_post l : forall s, wf s -> post s (tensor_all P G C p0 callP fits spline_ok cf s l).
+Proof.
+  induction l as [|o l IH]; intros s Hw; cbn; auto with wfdb.
+  apply post_bind; [apply tensor1_post; auto|]. intros t s1 _ Hw1 _.
+  apply post_bind; [apply IH; auto|]. intros ts s2 _ Hw2 _. auto with wfdb.
+Qed.
+Lemma forward_post s o : wf s -> post s (forward P G C p0 callP fits spline_ok cf s o).
+Proof.
+  intro Hw. unfold forward. apply post_with_obj; auto. intros ob _.
+  destruct (o_kind P G C ob); try (apply tensor_all_post; auto).
+  all: apply post_bind; [apply tensor1_post; auto|]; intros t s1 _ Hw1 _; auto with wfdb.
+Qed.
+Lemma call_post s o : wf s -> post s (call P G C p0 callP fits spline_ok cf s o).
+Proof.
+  intro Hw. unfold call. apply post_bind.
+  - destruct (c_hook cf); auto with wfdb. apply update_post; auto.
+  - intros [] s1 _ Hw1 _. apply forward_post; auto.
+Qed.
+
+(* ---------- assigning params ---------- *)
+Lemma set_params_post s o v :
+  wf s -> (forall r ip, v = SetTen r ip -> r < tlen s) -> post s (set_params P G C s o v).
+Proof.
+  intros Hw Hv. unfold set_params. apply post_with_obj; auto. intros ob Hg.
+  pose proof (wf_get _ _ _ Hw Hg) as Hob.
+  pose proof Hob as (H0 & H1 & H2 & _).
+  assert (Hclr : forall m, obj_ok (tlen s) (set_slots P G C ob None None m)).
+  { intro m. apply ok_set_slots; auto; intros; discriminate. }
+  assert (Hb : forall x m, o_bpar P G C ob <> None -> (forall r, x = Some r -> r < tlen s) ->
+               obj_ok (tlen s) (set_slots P G C ob (o_adict P G C ob) (Some x) m)).
+  { intros x m Hne Hx. apply ok_set_slots; auto.
+    - destruct H0 as [H0|H0]; [left; exact H0 | congruence].
+    - intros r E. injection E as ->. auto. }
+  assert (Ha : forall a m, o_bpar P G C ob = None -> (forall r, a = ATen r -> r < tlen s) ->
+               obj_ok (tlen s) (set_slots P G C ob (Some a) None m)).
+  { intros a m Hn Hx. apply ok_set_slots; auto.
+    - intros r E. injection E as ->. auto.
+    - intros; discriminate. }
+  assert (Hm : forall m, obj_ok (tlen s) (set_slots P G C ob (o_adict P G C ob) (o_bpar P G C ob) m)).
+  { intro m. apply ok_set_slots; auto. }
+  assert (Hr : forall r ip, v = SetTen r ip -> r < tlen s) by exact Hv.
+  destruct v as [| r [|] | o'].
+  - destruct (get_pd P G C s (o_pd P G C ob)).
+    + apply post_ret; [apply wf_set_pd; auto; intros; discriminate | cbn; lia].
+    + destruct (o_mpar P G C ob).
+      * apply post_ret; [apply wf_set_obj; auto | cbn; lia].
+      * destruct (o_bpar P G C ob) eqn:Eb.
+        -- apply post_ret; [apply wf_set_obj; auto | cbn; lia].
+           apply Hb; [first [discriminate | rewrite Eb; discriminate] | intros; discriminate].
+        -- apply post_ret; [apply wf_set_obj; auto | cbn; lia].
+           apply Ha; [first [reflexivity | exact Eb] | intros; discriminate].
+  - apply post_ret; [|cbn; lia]. apply wf_set_pd.
+    + apply wf_set_obj; auto.
+    + intros r' E. injection E as <-. cbn. eapply Hr; eauto.
+  - destruct (get_pd P G C s (o_pd P G C ob)); auto with wfdb.
+    destruct (o_mpar P G C ob); auto with wfdb.
+    destruct (o_bpar P G C ob) eqn:Eb.
+    + apply post_ret; [apply wf_set_obj; auto | cbn; lia].
+      apply Hb; [first [discriminate | rewrite Eb; discriminate] | intros r' E; injection E as <-; eapply Hr; eauto].
+    + apply post_ret; [apply wf_set_obj; auto | cbn; lia].
+      apply Ha; [first [reflexivity | exact Eb] | intros r' E; injection E as <-; eapply Hr; eauto].
+  - destruct (get_pd P G C s (o_pd P G C ob)); auto with wfdb.
+    apply post_ret; [apply wf_set_obj; auto | cbn; lia].
+Qed.
+
+(* plain-state helpers as posts *)
+Lemma post_state {A} s s' (a : A) : wf s' -> tlen s <= tlen s' -> post s (Ok a s').
+Proof. apply post_ret. Qed.
+
+Notation clear_buffers := (clear_buffers P G C cf).
+Notation data_set := (data_set P G C fits cf).
+
+Lemma data_set_post s o p ip : wf s -> post s (data_set s o p ip).
+Proof.
+  intro Hw. unfold TransformState.data_set. apply post_with_obj; auto. intros ob Hg.
+  assert (R : post s (match get_params s ob with
+              | None => Er AttrErr s
+              | Some pv => if is_callable pv then Er ReadOnly s else
+                  if negb (fits (o_kind P G C ob) p (o_grid P G C ob)) then Er ValueErr s else
+                  let (r, s1) := new_ten P G C s p in
+                  let keep := match pv with VTen _ true => true | _ => false end in
+                  bind P G C (set_params P G C s1 o (SetTen r (keep || ip)))
+                    (fun _ s2 => Ok tt (if c_data_clears cf then clear_buffers s2 o else s2))
+              end)).
+  { destruct (get_params s ob) as [pv|]; auto with wfdb.
+    destruct (is_callable pv); auto with wfdb.
+    destruct (negb _); auto with wfdb.
+    destruct (new_ten P G C s p) as [r s1] eqn:En.
+    assert (Es : s1 = snd (new_ten P G C s p)) by (rewrite En; reflexivity).
+    assert (Er : r = tlen s) by (unfold new_ten in En; injection En as <- _; reflexivity).
+    assert (Hw1 : wf s1) by (rewrite Es; apply wf_new_ten; auto).
+    assert (Hl1 : tlen s1 = S (tlen s)) by (rewrite Es; apply tlen_new_ten).
+    eapply post_weaken with (s := s1); [|lia].
+    apply post_bind.
+    - apply set_params_post; auto. intros r' ip' E. injection E as <- _. lia.
+    - intros [] s2 _ Hw2 Hl2. destruct (c_data_clears cf); apply post_ret; auto.
+      + apply wf_clear_buffers; auto.
+      + rewrite tlen_clear_buffers. lia. }
+  destruct (o_kind P G C ob); auto with wfdb.
+Qed.
+
+Lemma reset_post s o : wf s -> post s (reset P G C p0 zeroP cf s o).
+Proof.
+  intro Hw. unfold reset. apply post_with_obj; auto. intros ob Hg.
+  assert (R : post s (match get_params s ob with
+      | None => Er AttrErr s
+      | Some VNone => Ok tt s
+      | Some pv =>
+        bind P G C (if is_callable pv then match o_p P G C ob with Some r => Ok r s | None => Er AttrErr s end
+              else match pv with VTen r _ => Ok r s | _ => Er OtherErr s end)
+        (fun r s1 =>
+          let s2 := set_ten P G C s1 r (zeroP (tval P G C p0 s1 r)) in
+          Ok tt (if c_reset_clears cf then clear_buffers s2 o else s2))
+      end)).
+  { destruct (get_params s ob) as [[| r ip | f | o']|]; auto with wfdb.
+    all: apply post_bind; [cbn; try destruct (o_p P G C ob); auto with wfdb|].
+    all: intros r' s1 _ Hw1 Hl1; cbn zeta; destruct (c_reset_clears cf); apply post_ret;
+      try apply wf_clear_buffers; try apply wf_set_ten; auto;
+      try rewrite tlen_clear_buffers; cbn; rewrite length_replace; lia. }
+  destruct (o_kind P G C ob); auto with wfdb.
+Qed.
+
+Lemma edit_post s o p : wf s -> post s (edit P G C p0 fillP s o p).
+Proof.
+  intro Hw. unfold edit. apply post_with_obj; auto. intros ob Hg.
+  assert (R : post s (bind P G C (data_ref P G C s ob)
+                 (fun r s1 => Ok tt (set_ten P G C s1 r (fillP (tval P G C p0 s1 r) p))))).
+  { apply post_bind; [unfold post; rewrite data_ref_st; split; auto|].
+    intros r s1 _ Hw1 Hl1. apply post_ret; [apply wf_set_ten; auto | cbn; rewrite length_replace; lia]. }
+  destruct (o_kind P G C ob); auto with wfdb.
+Qed.
+
+Lemma wf_cond1 c s o : wf s -> wf (cond1 P G C cf c s o).
+Proof.
+  intro Hw. unfold cond1.
+  set (s1 := if c_cond_clears cf then clear_buffers s o else s).
+  assert (Hw1 : wf s1) by (subst s1; destruct (c_cond_clears cf); auto using wf_clear_buffers).
+  destruct (TransformState.get_obj P G C s1 o) eqn:E; auto.
+  apply wf_set_obj; auto. apply ok_set_cond. eapply wf_get; eauto.
+Qed.
+Lemma tlen_cond1 c s o : tlen (cond1 P G C cf c s o) = tlen s.
+Proof.
+  unfold cond1. set (s1 := if c_cond_clears cf then clear_buffers s o else s).
+  assert (E : tlen s1 = tlen s) by (subst s1; destruct (c_cond_clears cf); auto using tlen_clear_buffers).
+  destruct (TransformState.get_obj P G C s1 o); auto.
+Qed.
+Lemma wf_fold_cond c l : forall s, wf s -> wf (fold_left (cond1 P G C cf c) l s).
+Proof. induction l; cbn; auto using wf_cond1. Qed.
+Lemma tlen_fold_cond c l : forall s, tlen (fold_left (cond1 P G C cf c) l s) = tlen s.
+Proof. induction l as [|a l IH]; cbn; auto. intro s. rewrite IH. apply tlen_cond1. Qed.
+Lemma cond_set_post s o c : wf s -> post s (cond_set P G C cf s o c).
+Proof.
+  intro Hw. unfold cond_set. apply post_with_obj; auto. intros ob Hg.
+  destruct (o_kind P G C ob); try (apply post_ret; [apply wf_cond1; auto | rewrite tlen_cond1; lia]).
+  destruct (c_seq_cond cf); apply post_ret; auto using wf_cond1, wf_fold_cond;
+    rewrite ?tlen_fold_cond, tlen_cond1; lia.
+Qed.
+
+Lemma wf_base_grid s o g : wf s -> wf (base_grid_set P G C geq cf s o g).
+Proof.
+  intro Hw. unfold base_grid_set. destruct (TransformState.get_obj P G C s o) as [ob|]; auto.
+  destruct (geq _ _); auto.
+  set (s1 := if c_grid_clears cf then clear_buffers s o else s).
+  assert (Hw1 : wf s1) by (subst s1; destruct (c_grid_clears cf); auto using wf_clear_buffers).
+  destruct (TransformState.get_obj P G C s1 o) eqn:E; auto.
+  apply wf_set_obj; auto. apply ok_set_grid. eapply wf_get; eauto.
+Qed.
+Lemma tlen_base_grid s o g : tlen (base_grid_set P G C geq cf s o g) = tlen s.
+Proof.
+  unfold base_grid_set. destruct (TransformState.get_obj P G C s o) as [ob|]; auto.
+  destruct (geq _ _); auto.
+  set (s1 := if c_grid_clears cf then clear_buffers s o else s).
+  assert (E : tlen s1 = tlen s) by (subst s1; destruct (c_grid_clears cf); auto using tlen_clear_buffers).
+  destruct (TransformState.get_obj P G C s1 o); auto.
+Qed.
+Lemma wf_spline_install s o g : wf s -> wf (spline_install P G C cf s o g).
+Proof.
+  intro Hw. unfold spline_install.
+  set (s1 := if c_spline_grid_clears cf then clear_buffers s o else s).
+  assert (Hw1 : wf s1) by (subst s1; destruct (c_spline_grid_clears cf); auto using wf_clear_buffers).
+  destruct (TransformState.get_obj P G C s1 o) eqn:E; auto.
+  apply wf_set_obj; auto. apply ok_set_grid. eapply wf_get; eauto.
+Qed.
+Lemma tlen_spline_install s o g : tlen (spline_install P G C cf s o g) = tlen s.
+Proof.
+  unfold spline_install. set (s1 := if c_spline_grid_clears cf then clear_buffers s o else s).
+  assert (E : tlen s1 = tlen s) by (subst s1; destruct (c_spline_grid_clears cf); auto using tlen_clear_buffers).
+  destruct (TransformState.get_obj P G C s1 o); auto.
+Qed.
+
+Lemma grid_set_post s o g : wf s -> post s (grid_set P G C p0 regrid fits geq spline_ok ffd_sub cf s o g).
+Proof.
+  intro Hw. unfold grid_set. apply post_with_obj; auto. intros ob Hg.
+  destruct (is_dense _).
+  - destruct (get_params s ob) as [[| r ip | f | o']|]; auto with wfdb;
+      try (apply post_ret; [apply wf_base_grid; auto | rewrite tlen_base_grid; lia]).
+    destruct (c_dense_grid_data cf); [|apply post_ret; [apply wf_base_grid; auto | rewrite tlen_base_grid; lia]].
+    pose proof (data_set_post (base_grid_set P G C geq cf s o g) o
+                  (regrid (o_kind P G C ob) (tval P G C p0 s r) (o_grid P G C ob) g) false (wf_base_grid s o g Hw)) as [Hd1 Hd2].
+    rewrite tlen_base_grid in Hd2.
+    destruct (data_set _ _ _ _) as [[] s2|e s2]; cbn in *.
+    + apply post_ret; auto.
+    + apply post_err; [|cbn; destruct (TransformState.get_obj P G C s2 o); cbn; lia].
+      destruct (TransformState.get_obj P G C s2 o) eqn:E; auto.
+      apply wf_set_obj; auto. apply ok_set_grid. eapply wf_get; eauto.
+  - destruct (is_spline _); [|apply post_ret; [apply wf_base_grid; auto | rewrite tlen_base_grid; lia]].
+    destruct (get_params s ob) as [[| r ip | f | o']|]; auto with wfdb;
+      try (apply post_ret; [apply wf_spline_install; auto | rewrite tlen_spline_install; lia]).
+    destruct (negb _); auto with wfdb.
+    destruct (ffd_sub _ _) as [[|]|]; auto with wfdb.
+    + eapply post_weaken; [apply data_set_post; apply wf_spline_install; auto | rewrite tlen_spline_install; lia].
+    + apply post_ret; [apply wf_spline_install; auto | rewrite tlen_spline_install; lia].
+Qed.
+
+(* ---------- link_, unlink_, copy, inverse ---------- *)
+Lemma link_set_post s o o' : wf s -> post s (link_set P G C s o o').
+Proof.
+  intro Hw. unfold link_set. apply post_with_obj; auto. intros ob Hg. apply post_with_obj; auto. intros ob' Hg'.
+  destruct (Nat.eqb o o'); auto with wfdb. destruct (negb _); auto with wfdb.
+  assert (R : post s (bind P G C (set_params P G C s o (SetLink o')) (fun _ s1 =>
+        with_obj P G C s1 o (fun ob1 =>
+          match o_p P G C ob1 with
+          | Some _ => Ok tt s1
+          | None =>
+            match get_params s1 ob' with
+            | None => Er AttrErr s1
+            | Some VNone => Er OtherErr s1
+            | Some _ =>
+                bind P G C (with_obj P G C s1 o' (fun ob'' => data_ref P G C s1 ob'')) (fun r s2 =>
+                  Ok tt (set_obj s2 o (set_p P G C ob1 (Some r))))
+            end
+          end)))).
+  { apply post_bind; [apply set_params_post; auto; intros; discriminate|].
+    intros [] s1 _ Hw1 Hl1. apply post_with_obj; auto. intros ob1 Hg1.
+    destruct (o_p P G C ob1); auto with wfdb.
+    assert (Q : post s1 (bind P G C (with_obj P G C s1 o' (fun ob'' => data_ref P G C s1 ob'')) (fun r s2 =>
+                  Ok tt (set_obj s2 o (set_p P G C ob1 (Some r)))))).
+    { unfold with_obj. destruct (TransformState.get_obj P G C s1 o') as [ob''|] eqn:E''; cbn [bind]; auto with wfdb.
+      destruct (data_ref P G C s1 ob'') as [r s2|e s2] eqn:Ed; cbn [bind].
+      - destruct (data_ref_ok _ _ _ _ Hw1 (wf_get _ _ _ Hw1 E'') Ed) as [-> Lr].
+        apply post_ret; [|cbn; lia]. apply wf_set_obj; auto. apply ok_set_p; [eapply wf_get; eauto|].
+        intros r' E. injection E as <-. exact Lr.
+      - pose proof (data_ref_st s1 ob'') as Est. rewrite Ed in Est. cbn in Est. subst s2. auto with wfdb. }
+    destruct (get_params s1 ob') as [[| r ip | f | o'']|]; auto with wfdb. }
+  destruct (o_kind P G C ob); auto with wfdb.
+Qed.
+
+Lemma unlink_post s o : wf s -> post s (unlink P G C s o).
+Proof.
+  intro Hw. unfold unlink. apply post_with_obj; auto. intros ob Hg.
+  assert (R : post s (bind P G C (set_params P G C s o SetNone) (fun _ s1 =>
+        with_obj P G C s1 o (fun ob1 => Ok tt (set_obj s1 o (set_p P G C ob1 None)))))).
+  { apply post_bind; [apply set_params_post; auto; intros; discriminate|].
+    intros [] s1 _ Hw1 Hl1. apply post_with_obj; auto. intros ob1 Hg1.
+    apply post_ret; [|cbn; lia]. apply wf_set_obj; auto. apply ok_set_p; [eapply wf_get; eauto | intros; discriminate]. }
+  destruct (o_kind P G C ob); auto with wfdb.
+Qed.
+
+Lemma copy_obj_post s o : wf s -> post s (copy_obj P G C s o).
+Proof.
+  intro Hw. unfold copy_obj. apply post_with_obj; auto. intros ob Hg.
+  cbn. apply post_ret; [|cbn; lia]. apply (wf_push s ob Hw). eapply wf_get; eauto.
+Qed.
+
+Lemma u_content_ok n u : u_ok n (Some (mkU P G (Snap P (u_content P G C p0 (mkSt P G C [] (fun _ => None) 0 []) u)) (u_grid P G u) true)).
+Proof. apply u_ok_snap. Qed.
+
+Lemma inverse1_post s o link upd : wf s -> post s (inverse1 P G C p0 cf s o link upd).
+Proof.
+  intro Hw. unfold inverse1. apply post_with_obj; auto. intros ob Hg.
+  destruct (negb _); auto with wfdb.
+  pose proof (wf_get _ _ _ Hw Hg) as Hob.
+  cbn [push_obj]. set (s1 := mkSt P G C (tens P G C s) (pds P G C s) (npd P G C s) (objs P G C s ++ [ob])).
+  assert (Hw1 : wf s1) by (apply (wf_push s ob Hw Hob)).
+  assert (Hl1 : tlen s1 = tlen s) by reflexivity.
+  set (m := if link && c_inv_link cf then link_set P G C s1 (length (objs P G C s)) o else Ok tt s1).
+  assert (Hm : post s1 m) by (subst m; destruct (link && c_inv_link cf); auto using link_set_post with wfdb).
+  destruct m as [[] s2|e s2]; [|auto with wfdb].
+  destruct Hm as [Hw2 Hl2]. cbn in Hw2, Hl2.
+  eapply post_weaken with (s := s2); [|lia].
+  apply post_with_obj; auto. intros ob2 Hg2. pose proof (wf_get _ _ _ Hw2 Hg2) as Hob2.
+  apply post_ret; [|cbn; lia]. apply wf_set_obj; auto.
+  destruct (has_exp _ && upd); [|apply ok_set_inv; auto].
+  destruct (o_v P G C (set_inv P G C ob2 _)) eqn:Ev; [|apply ok_set_inv; auto].
+  apply ok_set_uv; [apply ok_set_inv; auto | apply u_ok_snap | rewrite <- Ev; apply ok_v; apply ok_set_inv; auto].
+Qed.
+
+Lemma inverse_all_post l link upd : forall s, wf s -> post s (inverse_all P G C p0 cf s l link upd).
+Proof.
+  induction l as [|o l IH]; intros s Hw; cbn; auto with wfdb.
+  apply post_bind; [apply inverse1_post; auto|]. intros n s1 _ Hw1 _.
+  apply post_bind; [apply IH; auto|]. intros ns s2 _ Hw2 _. auto with wfdb.
+Qed.
+
+Lemma inverse_post s o link upd : wf s -> post s (inverse P G C p0 cf s o link upd).
+Proof.
+  intro Hw. unfold inverse. apply post_with_obj; auto. intros ob Hg.
+  pose proof (wf_get _ _ _ Hw Hg) as Hob.
+  destruct (o_kind P G C ob); try (apply inverse1_post; auto).
+  destruct (inverse_all_post (rev (o_members P G C ob)) link upd s Hw) as [Hw1 Hl1].
+  destruct (inverse_all P G C p0 cf s (rev (o_members P G C ob)) link upd) as [ns s1|e s1]; cbn in *; auto with wfdb.
+  apply post_ret; [|cbn; lia]. apply (wf_push s1 _ Hw1). apply ok_set_members. eapply obj_ok_mono; eauto.
+Qed.
+
+(* ---------- constructors ---------- *)
+Lemma blank_ok n k g a d b m p :
+  (a = None \/ b = None) -> (forall r, a = Some (ATen r) -> r < n) -> (forall r, b = Some (Some r) -> r < n) ->
+  (forall r, p = Some r -> r < n) ->
+  obj_ok n (mkObj P G C k g None a d b m p None None false []).
+Proof. intros. unfold obj_ok; cbn. repeat split; auto using u_ok_none. Qed.
+
+Lemma new_obj_post s k g pk : wf s -> post s (new_obj P G C emptyP zeroP fits spline_ok s k g pk).
+Proof.
+  intro Hw. unfold new_obj.
+  assert (R : post s (
+    if is_spline k && negb (spline_ok g) then Er ValueErr s else
+    let blank a d b m p := mkObj P G C k g None a d b m p None None false [] in
+    match pk with
+    | PkNone _ => let (d, s1) := new_pd P G C s None in let (n, s2) := push_obj P G C s1 (blank (Some ANone) d None None None) in Ok n s2
+    | PkBool _ b =>
+        let (r, s1) := new_ten P G C s (zeroP (emptyP k g)) in
+        if b then let (d, s2) := new_pd P G C s1 (Some (Some r)) in let (n, s3) := push_obj P G C s2 (blank None d None None None) in Ok n s3
+        else let (d, s2) := new_pd P G C s1 None in let (n, s3) := push_obj P G C s2 (blank None d (Some (Some r)) None None) in Ok n s3
+    | PkTen _ p isparam =>
+        if negb (fits k p g) then Er ValueErr s else
+        let (r, s1) := new_ten P G C s p in
+        if isparam then let (d, s2) := new_pd P G C s1 (Some (Some r)) in let (n, s3) := push_obj P G C s2 (blank None d None None None) in Ok n s3
+        else let (d, s2) := new_pd P G C s1 None in let (n, s3) := push_obj P G C s2 (blank None d (Some (Some r)) None None) in Ok n s3
+    | PkFun _ f ismod =>
+        let (r, s1) := new_ten P G C s (zeroP (emptyP k g)) in
+        let (d, s2) := new_pd P G C s1 None in
+        let (n, s3) := push_obj P G C s2 (if ismod then blank None d None (Some (Some (MFun f))) (Some r)
+                                    else blank (Some (AFun f)) d None None (Some r)) in
+        Ok n s3
+    end)).
+  { destruct (is_spline k && negb (spline_ok g)); auto with wfdb.
+    assert (Hnew : forall p, wf (snd (new_ten P G C s p)) /\ tlen (snd (new_ten P G C s p)) = S (tlen s))
+      by (intro p; split; [apply wf_new_ten; auto | apply tlen_new_ten]).
+    destruct pk as [b | p ip | f im |]; cbn zeta.
+    - destruct (Hnew (zeroP (emptyP k g))) as [Hw1 Hl1]. cbn [new_ten fst snd] in *.
+      destruct b; cbn [new_pd push_obj]; (apply post_ret; [|cbn; cbn in Hl1; lia]).
+      + apply wf_push; [apply wf_new_pd; auto; intros r E; injection E as <-; cbn in *; lia|].
+        apply blank_ok; auto; intros; discriminate.
+      + apply wf_push; [apply wf_new_pd; auto; intros; discriminate|].
+        apply blank_ok; auto; try (intros; discriminate). intros r E. injection E as <-. cbn in *. lia.
+    - destruct (negb _); auto with wfdb.
+      destruct (Hnew p) as [Hw1 Hl1]. cbn [new_ten fst snd] in *.
+      destruct ip; cbn [new_pd push_obj]; (apply post_ret; [|cbn; cbn in Hl1; lia]).
+      + apply wf_push; [apply wf_new_pd; auto; intros r E; injection E as <-; cbn in *; lia|].
+        apply blank_ok; auto; intros; discriminate.
+      + apply wf_push; [apply wf_new_pd; auto; intros; discriminate|].
+        apply blank_ok; auto; try (intros; discriminate). intros r E. injection E as <-. cbn in *. lia.
+    - destruct (Hnew (zeroP (emptyP k g))) as [Hw1 Hl1]. cbn [new_ten fst snd] in *.
+      cbn [new_pd push_obj]. apply post_ret; [|cbn; cbn in Hl1; lia].
+      apply wf_push; [apply wf_new_pd; auto; intros; discriminate|].
+      destruct im; apply blank_ok; auto; try (intros; discriminate); intros r E; injection E as <-; cbn in *; lia.
+    - cbn [new_pd push_obj]. apply post_ret; [|cbn; lia].
+      apply wf_push; [apply wf_new_pd; auto; intros; discriminate|].
+      apply blank_ok; auto; intros; discriminate. }
+  destruct k; auto with wfdb.
+Qed.
+
+Lemma new_seq_post s ms : wf s -> post s (new_seq P G C same_dom s ms).
+Proof.
+  intro Hw. unfold new_seq. destruct ms as [|m0 ms']; auto with wfdb.
+  apply post_with_obj; auto. intros ob0 _.
+  destruct (forallb _ _); auto with wfdb.
+  cbn [new_pd push_obj]. apply post_ret; [|cbn; lia].
+  apply wf_push; [apply wf_new_pd; auto; intros; discriminate|].
+  unfold obj_ok; cbn. repeat split; auto using u_ok_none; intros; discriminate.
+Qed.
+
+(* ---------- every operation, every history ---------- *)
+Notation step := (step P G C p0 emptyP zeroP fillP regrid callP fits geq same_dom spline_ok ffd_sub cf).
+Notation run := (run P G C p0 emptyP zeroP fillP regrid callP fits geq same_dom spline_ok ffd_sub cf).
+
+Lemma fin_wf {A} s (m : res P G C A) f : post s m -> wf (fst (fin P G C m f)).
+Proof. intros [H _]. destruct m; exact H. Qed.
+
+Theorem step_wf s x : wf s -> wf (fst (step s x)).
+Proof.
+  intro Hw. destruct x; cbn [TransformState.step].
+  - apply (fin_wf s). apply new_obj_post; auto.
+  - apply (fin_wf s). apply new_seq_post; auto.
+  - apply (fin_wf s). apply data_set_post; auto.
+  - apply (fin_wf s). apply edit_post; auto.
+  - apply (fin_wf s). apply grid_set_post; auto.
+  - apply (fin_wf s). apply cond_set_post; auto.
+  - apply (fin_wf s). apply post_bind; [apply copy_obj_post; auto|]. intros n s1 _ Hw1 _. apply cond_set_post; auto.
+  - apply (fin_wf s). apply reset_post; auto.
+  - apply (fin_wf s). apply update_post; auto.
+  - apply (fin_wf s). apply call_post; auto.
+  - destruct (TransformState.get_obj P G C s o); [apply (fin_wf s); apply forward_post; auto | exact Hw].
+  - apply (fin_wf s). apply forward_post; auto.
+  - apply (fin_wf s). apply inverse_post; auto.
+  - apply (fin_wf s). apply link_set_post; auto.
+  - apply (fin_wf s). apply unlink_post; auto.
+  - destruct (TransformState.get_obj P G C s o); [apply wf_clear_buffers; auto | exact Hw].
+  - apply (fin_wf s). apply copy_obj_post; auto.
+Qed.
+
+Lemma wf_empty : wf (empty_state P G C).
+Proof. split; cbn; [constructor | intros; discriminate]. Qed.
+
+Theorem run_wf h : forall s, wf s -> wf (run s h).
+Proof. induction h as [|x h IH]; intros s Hw; cbn; auto. apply IH. apply step_wf; auto. Qed.
+
+Corollary reachable_wf h : wf (run (empty_state P G C) h).
+Proof. apply run_wf. apply wf_empty. Qed.
+
 End Wf.
